@@ -98,3 +98,9 @@ TIES = {
 }
 for _k, _v in TIES.items():
     PROPS[_k]["ties"] = _v
+
+# C03: the two finite independence enumerations are evaluated by compiled code (native_decide), see DESIGN section 3
+PROPS["C03"]["allow_axiom_regex"] = r"^Bch\.Proofs\.C03Enum\.(cashaddr|bech32)_slices\._native\.native_decide\.ax_"
+PROPS["C03"]["level_note"] = ("Trusted: Lean kernel + propext/Classical.choice/Quot.sound, PLUS the Lean compiler/runtime for exactly two facts "
+    "(Bch.Proofs.C03Enum.cashaddr_slices / bech32_slices, `native_decide`: every set of <=5 of 112 (resp. <=4 of 89) symbol positions has GF(2)-independent syndrome columns); "
+    "everything else (linearity, soundness of the search, the lift to the decoders) is kernel-only. The probed syndrome tables of the real code are tied to the model by Tie/Addr and Tie/Bech32.")
